@@ -236,7 +236,7 @@ class AsyncManagementEnforcer(AsyncInternalEnforcer):
             rule_added = await self._add_policy("g", ptype, list(params))
             rules.append(list(params))
 
-        if self.auto_build_role_links:
+        if self.auto_build_role_links and rule_added:
             self.model.build_incremental_role_links(self.rm_map[ptype], PolicyOp.Policy_add, "g", ptype, rules)
         return rule_added
 
@@ -247,7 +247,7 @@ class AsyncManagementEnforcer(AsyncInternalEnforcer):
         Otherwise, the function returns true for the corresponding policy rule by adding the new rule.
         """
         rules_added = await self._add_policies("g", ptype, rules)
-        if self.auto_build_role_links:
+        if self.auto_build_role_links and rules_added:
             self.model.build_incremental_role_links(self.rm_map[ptype], PolicyOp.Policy_add, "g", ptype, rules)
 
         return rules_added
